@@ -88,7 +88,7 @@ class address_offsets:
     # the enumeration is consumed to its end: the function does not return from inside the loop
     ensures = ["@check $k0 == gen_len($seq0)"]
     may_raise = ["ELFError", "OverflowError"]
-from specs.contents import inflated, inflatable, zeros
+from specs.contents import inflated, inflatable, zeros, inflated_len
 
 SHF_COMPRESSED = 0x800
 SecObj = Obj('Section', header=ShdrT, name=Str, elffile=ELFFileT(), stream=Alias('elffile.stream'),
@@ -99,8 +99,8 @@ SecObj = Obj('Section', header=ShdrT, name=Str, elffile=ELFFileT(), stream=Alias
 @contract("elftools/elf/sections.py", "Section.data", props=["C02", "C11"])
 class section_data:
     """zero block for SHT_NOBITS; inflated payload after the compression header for
-    SHF_COMPRESSED/ELFCOMPRESS_ZLIB (rejected when the inflated size differs from ch_size or the
-    type is unknown); otherwise the file bytes of the extent"""
+    SHF_COMPRESSED/ELFCOMPRESS_ZLIB (rejected when the size of the WHOLE inflated stream differs from ch_size -- too
+    large or too small -- or the type is unknown); otherwise the file bytes of the extent"""
     params = dict(self=SecObj)
     requires = ["self.structs.elfclass == self.elffile.elfclass",
                 "self._compressed == 0 or self.header.sh_size >= SZ('Elf_Chdr', self.elffile.elfclass)",
@@ -116,7 +116,7 @@ class section_data:
                    " $B[$o : $o + self._decompressed_size])")
     raises = {"ELFCompressionError": "(not $nobits) and self._compressed != 0 and"
                                      " (self._compression_type != 'ELFCOMPRESS_ZLIB' or"
-                                     " (inflatable($z) and len(inflated($z, self._decompressed_size)) != self._decompressed_size))",
+                                     " (inflatable($z) and inflated_len($z) != self._decompressed_size))",
               "zlib.error": "(not $nobits) and self._compressed != 0 and self._compression_type == 'ELFCOMPRESS_ZLIB'"
                             " and not inflatable($z)"}
 
